@@ -309,6 +309,16 @@ define_extension_type(CPPExtensionType *type, CPPPreprocessor *error_sink) {
       if (old_templ_type == nullptr || old_templ_type->is_incomplete()) {
         // The previous template definition was incomplete, maybe a forward
         // reference; replace it with the good one.
+        if (old_templ->is_template()) {
+          // Default template arguments given on the earlier declaration
+          // apply to this one as well.
+          CPPScope *global_scope = this;
+          while (global_scope->get_parent_scope() != nullptr) {
+            global_scope = global_scope->get_parent_scope();
+          }
+          scope->inherit_defaults(old_templ->get_template_scope(), this,
+                                  global_scope);
+        }
         (*result.first).second = type;
       }
     }
